@@ -13,12 +13,12 @@ import (
 type TokKind int
 
 const (
-	TEOF TokKind = iota
-	TIdent        // possibly qualified: struct.mk, slice.T, Γ
-	TString       // "..." (content, with "" unescaped)
-	TNum          // 123
-	TPunct        // ( ) [ ] , ; ;; := :: ::= <> -> % # ! ~ . + - * = < > etc, keywords let: if: ...
-	TSentenceEnd  // '.' followed by blank or EOF
+	TEOF         TokKind = iota
+	TIdent               // possibly qualified: struct.mk, slice.T, Γ
+	TString              // "..." (content, with "" unescaped)
+	TNum                 // 123
+	TPunct               // ( ) [ ] , ; ;; := :: ::= <> -> % # ! ~ . + - * = < > etc, keywords let: if: ...
+	TSentenceEnd         // '.' followed by blank or EOF
 )
 
 type Token struct {
